@@ -84,8 +84,45 @@ def run_alias_probe(sh, k):
     G.unload(mod)
 
 
+TWONAMES_SRC = """from pymtl3 import *
+class Top(Component):
+  def construct(s):
+    s.in_ = InPort({w}); s.out = OutPort({w})
+    s.w = {kind}({w})
+    s.{alias} = s.w             # a second attribute name for the same signal
+    @update
+    def up_a(): s.w @= s.in_ + 1
+    @update
+    def up_b(): s.out @= s.{alias} + 1
+"""
+
+
+def run_two_names_probe(sh, k):
+  """one signal object under two attribute names of its component: the design is refused, or both names denote one value under
+  every pass group (out = in_ + 2)"""
+  rng = sh.rng("twonames", k)
+  w = rng.choice([1, 4, 8, 33]); src = TWONAMES_SRC.format(w=w, kind="Wire", alias=rng.choice(["alias", "dbg", "a", "z_w"]))
+  mod = G.load_source(src, "c01two")
+  try:
+    for mode in simmon.MODES[:5]:
+      try:
+        top = mod.Top(); simmon.apply_mode(top, mode, rng)
+      except Exception as e:
+        sh.count("two_names_designs_refused"); continue
+      for _ in range(3):
+        v = rng.getrandbits(w); top.in_ @= v; top.sim_eval_combinational()
+        sh.count("two_names_evaluations")
+        if int(top.out) != (v + 2) & ((1 << w) - 1):
+          sh.violation("signal-values-differ-from-the-dataflow-equations", {"probe": "one signal under two attribute names", "mode": mode, "in_": v,
+                       "out": int(top.out), "expected": (v + 2) & ((1 << w) - 1), "source": src}, case=("twonames", k)); return
+        top.sim_tick()
+  finally:
+    G.unload(mod)
+
+
 def run_shard(sh):
   q = sh.tier == "quick"
+  run_two_names_probe(sh, sh.idx)
   if sh.idx == 0:
     for k in range(3): run_alias_probe(sh, k)
   for case in range(sh.params["designs"]):
